@@ -240,7 +240,7 @@ theorem cols_optCmp (cm : Option Comparison) (s : Sel) : (optCmp cm s).cols = s.
 theorem rangePhaseX_ok (o : Oracles) (c : MCtx) (hn : c.namesOk) (d : LokiDb) (r : RangeAggX)
     (hpost : r.post = [] ∨ ∃ ch more, r.post = .ch ch :: more)
     (hplain : ∀ fn, r.kind = .lra fn → r.post ≠ [])
-    (hm : r.sel.matchers.length ≤ 63) (hms : 1000000 ∣ r.durNs) (hd : 0 < r.durNs) :
+    (hm : r.sel.matchers.length ≤ 63) (hd : 0 < r.durNs) :
     ∃ L, PStage o c d r.sel (rangePhaseX c r).sel (cmpStage r.cmp (rangePointsX o c.toCtx d r)) L ∧
       FreshFor L (rangePhaseX c r).id ∧ (∀ p ∈ cmpStage r.cmp (rangePointsX o c.toCtx d r), PtAtomic p) ∧
       hasColumn (rangePhaseX c r).sel.cols "labels" = true := by
@@ -250,7 +250,7 @@ theorem rangePhaseX_ok (o : Oracles) (c : MCtx) (hn : c.namesOk) (d : LokiDb) (r
       rcases hpost with h | h
       · exact absurd h (hplain fn hk)
       · exact h
-    obtain ⟨n, hid, hps⟩ := lraXPhase_ok o c hn d r hm fn hk ch more hp hms hd
+    obtain ⟨n, hid, hps⟩ := lraXPhase_ok o c hn d r hm fn hk ch more hp hd
     have hsel : (rangePhaseX c r).sel = optCmp r.cmp (lraSel fn r.durNs true (runsSource c.toCtx r).sel) := by
       simp only [rangePhaseX, hk, sourceX, hp, RangeKindX.label?]
     have hid' : (rangePhaseX c r).id = (labelConds r.sel).length + n := by
@@ -284,7 +284,7 @@ theorem rangePhaseX_ok (o : Oracles) (c : MCtx) (hn : c.namesOk) (d : LokiDb) (r
       · rw [hsel, unwrapFnSel_eq]
         have := h0.wrap "unwrap_1" (by decide) (named_notin_srcAls _ _ _ (by decide) (by decide))
           (uwBody fn r.durNs (cmpHaving r.cmp)) (cmpHaving_notBitSet _) _
-          (uw_eval o _ _ fn _ hms hd _ _ h0.rep (by simp [List.lookup]) r.cmp)
+          (uw_eval o _ _ fn _ hd _ _ h0.rep (by simp [List.lookup]) r.cmp)
         simpa [itemsX, hg] using this
       · apply freshFor_src
         intro x _ h4 _ _
@@ -310,7 +310,7 @@ theorem rangePhaseX_ok (o : Oracles) (c : MCtx) (hn : c.namesOk) (d : LokiDb) (r
           (notin_append (named_notin_srcAls _ _ _ (by decide) (by decide))
             (by simp only [List.mem_singleton, Alias.named.injEq]; apply Ne.symm; str_ne))
           (uwBody fn r.durNs (cmpHaving r.cmp)) (cmpHaving_notBitSet _) _
-          (uw_eval o _ _ fn _ hms hd _ _ h1.rep (by simp [List.lookup]) r.cmp)
+          (uw_eval o _ _ fn _ hd _ _ h1.rep (by simp [List.lookup]) r.cmp)
         simpa [itemsX, hg] using this
       · rw [hid', List.append_assoc]
         apply freshFor_src
@@ -381,11 +381,11 @@ theorem supportedX_spec (q : MetricQueryX) (h : supportedX q = true) :
     (q.range.post = [] ∨ ∃ ch more, q.range.post = .ch ch :: more) ∧
     (∀ fn, q.range.kind = .lra fn → q.range.post ≠ []) ∧
     (∀ fn l, q.range.kind = .unwrap fn l → q.range.post ≠ []) ∧
-    1000000 ∣ q.range.durNs ∧ 0 < q.range.durNs ∧ q.range.sel.matchers.length ≤ 63 := by
+    0 < q.range.durNs ∧ q.range.sel.matchers.length ≤ 63 := by
   unfold supportedX at h
   simp only [Bool.and_eq_true, decide_eq_true_eq] at h
-  obtain ⟨⟨⟨⟨h1, h2⟩, h4⟩, h5⟩, h6⟩ := h
-  refine ⟨splitPre_fst_nil _ h1, ?_, ?_, Nat.dvd_of_mod_eq_zero h4, h5, h6⟩
+  obtain ⟨⟨⟨h1, h2⟩, h5⟩, h6⟩ := h
+  refine ⟨splitPre_fst_nil _ h1, ?_, ?_, h5, h6⟩
   · intro fn hk; rw [hk] at h2; intro he; rw [he] at h2; simp at h2
   · intro fn l hk; rw [hk] at h2; intro he; rw [he] at h2; simp at h2
 
@@ -395,8 +395,8 @@ theorem supportedX_spec (q : MetricQueryX) (h : supportedX q = true) :
 theorem planMetricX_correct (o : Oracles) (c : MCtx) (hn : c.namesOk) (d : LokiDb) (q : MetricQueryX)
     (hsup : supportedX q = true) :
     (evalSelA o (d.toDbM c) (planMetricX c q)).map normRow = evalMetricX o c d q := by
-  obtain ⟨hpost, hplain, _, hms, hd, hm⟩ := supportedX_spec q hsup
-  obtain ⟨L, hps, hfresh, hat, hcol⟩ := rangePhaseX_ok o c hn d q.range hpost hplain hm hms hd
+  obtain ⟨hpost, hplain, _, hd, hm⟩ := supportedX_spec q hsup
+  obtain ⟨L, hps, hfresh, hat, hcol⟩ := rangePhaseX_ok o c hn d q.range hpost hplain hm hd
   unfold planMetricX evalMetricX
   rw [tailX_ok o c d q.range.sel q.range.durNs q.agg q.topk (rangePhaseX c q.range) _ L hps hfresh hat hcol,
     metricPointsX_eq]
